@@ -84,6 +84,17 @@ def _replay_state(st):
         n += 1
         if abs(float(v) - ex) > 4 * EPS * max(ex, 1e-300):
             fails.append((name, "FroIsRootSumSquares", {"A": A.tolist(), "got": float(v), "expected_sq": out["fro2"]}))
+    # component-form norm on planes stored in narrow integer dtypes (values fit; their squares may not)
+    if np.max(np.abs(A)) <= 127:
+        u = lib().utils
+        for dt in (np.int8, np.int16, np.int32, np.float32):
+            planes = [np.ascontiguousarray(A[..., c]).astype(dt) for c in range(4)]
+            for tag, pl in (("dense", planes), ("sparse", [sparse.csr_matrix(x) for x in planes])):
+                n += 1
+                v = float(u.normQsparse(*pl))
+                if abs(v - ex) > 1e-6 * max(ex, 1e-300):
+                    fails.append(("normQsparse.%s[%s]" % (tag, np.dtype(dt).name), "FroIsRootSumSquares",
+                                  {"A": A.tolist(), "got": v, "expected_sq": out["fro2"]}))
     s = osvals(A)
     s1 = float(s[0]) if len(s) else 0.0
     r = int(np.sum(s > 1e-10 * max(s1, 1e-300))) if len(s) else 0
